@@ -204,6 +204,7 @@ def check_family(entry: str, member: t.Callable[[int], t.Any], label: str, ctx: 
 
 class TextFamilies(Part):
     name = "text-families"
+    shrinkable = {QUICK: True, THOROUGH: False}  # re-running a 30000-family shard per bucket costs ~10 min each
     examples = {QUICK: 190, THOROUGH: 30000}
     budget = {QUICK: 200.0, THOROUGH: 3000.0}
 
